@@ -308,6 +308,46 @@ def impl_decompress(payload):
     return results
 
 
+def impl_interleaved(payload):
+    """Two decompress calls in flight in one process: reader A hands out its chunks one by one, and between two of its chunks a
+    complete decompress of another stream B (cut inside its frames too) runs — as when several arrays / files are being read
+    through one process.  What A returns must be the whole-stream meaning of A's own bytes: a reader owns its state."""
+    import numpy as np
+    from abacusnbody.data.asdf import BloscCompressor
+    from vlib.implrun import classify
+    res = []
+    for case in payload['cases']:
+        a, b = bytes.fromhex(case['a']), bytes.fromhex(case['b'])
+
+        def chunks_of(stream, cuts):
+            p, out = 0, []
+            for c in cuts:
+                out.append(stream[p:p + c])
+                p += c
+            return out
+
+        def run_b():
+            backing = np.zeros(case['cap_b'] + 64, dtype=np.uint8)
+            try:
+                BloscCompressor().decompress(iter(chunks_of(b, case['cuts_b'])), memoryview(backing)[:case['cap_b']])
+            except Exception:  # noqa: BLE001
+                pass
+
+        def gen_a():
+            for k, ch in enumerate(chunks_of(a, case['cuts_a'])):
+                if k:
+                    run_b()
+                yield ch
+
+        backing = np.full(case['cap_a'] + 64, SENT, dtype=np.uint8)
+        try:
+            n = int(BloscCompressor().decompress(gen_a(), memoryview(backing)[:case['cap_a']]))
+            res.append({'class': 'ok', 'out': [int(x) for x in backing[:max(n, 0)]], 'ret': n})
+        except Exception as e:  # noqa: BLE001
+            res.append({'class': classify(e), 'value': repr(e)[:200]})
+    return res
+
+
 def impl_end_to_end(payload):
     """blsc ASDF files written through the real compress (write-side shim: asdf >= 3 hands compress an ndarray, the repo
     wants a memoryview) and read back through asdf's real file layer with several io_block_size values, i.e. the real
@@ -542,6 +582,33 @@ def explore(ctx):
             vals = [coqio.outcome_val(g, ok_val) for g in per]
             terms.append(coqio.tup([case_term(case), coqio.VL(vals)]))
             owners.append(i)
+    # --- two readers in flight: A's chunks interleaved with complete decodings of another stream
+    good = [c for c in cases if not c['big'] and ref_decompress(c['stream_b'], c['cap'])['class'] == 'ok'
+            and len(ref_deframe(c['stream_b'])[0]) >= 1]
+    icases = []
+    for k in range(0, len(good) - 1, max(1, len(good) // (12 if ctx.quick() else 60))):
+        ca, cb = good[k], good[k + 1]
+        for ch_a in [ch for ch in ca['chunkings'] if len(ch['cuts']) >= 2][:2]:
+            ch_b = max(cb['chunkings'], key=lambda ch: len(ch['cuts']))
+            icases.append({'a': ca['stream'], 'cap_a': ca['cap'], 'cuts_a': ch_a['cuts'], 'b': cb['stream'], 'cap_b': cb['cap'],
+                           'cuts_b': ch_b['cuts'], 'kind_a': ch_a['kind'], 'ref': ref_decompress(ca['stream_b'], ca['cap'])})
+    try:
+        ires = ctx.run_impl('harness.c14', 'impl_interleaved', {'cases': [{k: v for k, v in c.items() if k != 'ref'} for c in icases]})
+    except Exception as e:  # noqa: BLE001
+        ires = []
+        mismatches.append({'part': 'interleaved-readers', 'error': str(e)[:500]})
+    for c, r in zip(icases, ires):
+        evaluations += 1
+        exp = c['ref']
+        if r['class'] != 'ok' or r['out'] != exp['out'] or r['ret'] != exp['ret']:
+            counterexamples.append({
+                'key': 'decompress:interleaved-readers', 'what': 'decompress: with another decompress call running between two of its '
+                f"chunks (chunking {c['kind_a']}) a reader no longer returns the bytes of its own stream",
+                'input': dict({k: v for k, v in c.items() if k != 'ref'}, op='interleaved'), 'impl_result': r,
+                'expected': {'class': 'ok', 'ret': exp['ret']},
+                'predicate': 'the bytes written and the returned length are the whole-stream meaning of the reader\'s own chunks, '
+                             'whatever else the process decodes meanwhile', 'size': len(c['a']) // 2})
+    dist['interleaved_reader_cases'] = len(icases)
     # --- end to end through asdf's file layer
     e2e_specs = gen_e2e_specs(ctx)
     e2e = ctx.run_impl('harness.c14', 'impl_end_to_end', {'specs': e2e_specs})
@@ -642,6 +709,12 @@ def replay(ctx, rec):
         r = ctx.run_impl('harness.c14', 'impl_compress', {'specs': [spec]})[0]
         why = judge_compress(spec, r)
         return bool(why), {'input': inp, 'impl_result': r, 'why': why}
+    if inp.get('op') == 'interleaved':
+        c = {k: v for k, v in inp.items() if k != 'op'}
+        r = ctx.run_impl('harness.c14', 'impl_interleaved', {'cases': [c]})[0]
+        exp = ref_decompress(bytes.fromhex(c['a']), c['cap_a'])
+        still = r['class'] != 'ok' or r['out'] != exp.get('out') or r['ret'] != exp.get('ret')
+        return still, {'input': inp, 'impl_result': r}
     stream = bytes.fromhex(inp['stream'])
     if 'chunking' in inp:
         chs = [inp['chunking']]
